@@ -687,7 +687,8 @@ Proof.
   - match goal with |- context [exec o ?x] => specialize (IHo x); destruct (exec o x) as [[s1 r1] t1] end.
     unfold st_of, frame in *; simpl in *. destruct IHo as [A1 [A2 [A3 [A4 [A5 [A6 A7]]]]]].
     rewrite A5. simpl. rewrite N.pred_succ. intuition.
-  - match goal with |- context [exec o ?x] => specialize (IHo x); destruct (exec o x) as [[s1 r1] t1] end.
+  - destruct (memo_get k (t_memo s)); [apply frame_refl|].
+    match goal with |- context [exec o ?x] => specialize (IHo x); destruct (exec o x) as [[s1 r1] t1] end.
     destruct r1; unfold st_of, frame in *; simpl in *; intuition.
 Qed.
 
@@ -746,7 +747,8 @@ Proof.
     unfold trace_of, st_of in *; simpl in *. rewrite run_trace_app. unfold run_trace in *. rewrite IHo. reflexivity.
   - match goal with |- context [exec o ?x] => specialize (IHo x); destruct (exec o x) as [[s1 r1] t1] end.
     unfold trace_of, st_of in *; simpl in *. rewrite run_trace_app. unfold run_trace in *. rewrite IHo. reflexivity.
-  - match goal with |- context [exec o ?x] => specialize (IHo x); destruct (exec o x) as [[s1 r1] t1] end.
+  - destruct (memo_get k (t_memo s)); [reflexivity|].
+    match goal with |- context [exec o ?x] => specialize (IHo x); destruct (exec o x) as [[s1 r1] t1] end.
     destruct r1; unfold trace_of, st_of in *; simpl in *.
     + exact IHo.
     + rewrite run_trace_app. unfold run_trace in *. rewrite IHo. reflexivity.
@@ -761,11 +763,32 @@ Qed.
 (* _memoize_default writes its recursion default without try/finally: an exception leaves it behind *)
 Lemma memo_default_survives_exception :
   exists o s k, idle s /\ t_memo s = [] /\ raised_of (run_query o s) = true /\
-                memo_get k (t_memo (st_of (run_query o s))) = Some true /\ idle (st_of (run_query o s)).
+                memo_default k (t_memo (st_of (run_query o s))) = true /\ idle (st_of (run_query o s)) /\
+                (* ... and the same query, asked again, does not raise any more *)
+                raised_of (run_query o (st_of (run_query o s))) = false.
 Proof.
   exists (OMemo 7%N (ORec 1%N ORaise)), idle_state, 7%N.
   split; [unfold idle; repeat split|]. split; [reflexivity|]. split; [reflexivity|].
-  split; [reflexivity|]. unfold idle. vm_compute. repeat split.
+  split; [reflexivity|]. split; [unfold idle; vm_compute; repeat split | reflexivity].
+Qed.
+
+(* the memo key contains neither flow_analysis_enabled nor is_analysis: what one query computed with
+   flow analysis switched off is served to a later query that runs with flow analysis on *)
+Lemma memo_ignores_flow_mode :
+  exists o1 o2 s k,
+    idle s /\ t_memo s = [] /\
+    let s1 := st_of (run_query o1 s) in
+    let s2 := st_of (run_query o2 s1) in
+    idle s1 /\ idle s2 /\ raised_of (run_query o1 s) = false /\
+    memo_get k (t_memo s2) = Some (false, false, false) /\ t_flow s1 = true /\
+    trace_of (run_query o2 s1) = [EReset] /\
+    (* on a fresh state the second query computes the entry itself, under flow analysis *)
+    memo_get k (t_memo (st_of (run_query o2 s))) = Some (false, true, false).
+Proof.
+  exists (OFlowOff (OMemo 3%N OSkip)), (OMemo 3%N OSkip), idle_state, 3%N.
+  split; [unfold idle; repeat split|]. split; [reflexivity|].
+  cbv zeta. split; [unfold idle; vm_compute; repeat split|]. split; [unfold idle; vm_compute; repeat split|].
+  repeat split.
 Qed.
 
 Fixpoint raise_free (o : op) : bool :=
@@ -791,7 +814,7 @@ Qed.
 Lemma no_exception_no_default o : forall s,
   raise_free o = true ->
   raised_of (exec o s) = false /\
-  forall k, memo_get k (t_memo (st_of (exec o s))) = Some true -> memo_get k (t_memo s) = Some true.
+  forall k, memo_default k (t_memo (st_of (exec o s))) = true -> memo_default k (t_memo s) = true.
 Proof.
   induction o; intros s Hrf; simpl in Hrf; simpl.
   - split; auto.
@@ -816,8 +839,9 @@ Proof.
     unfold raised_of, st_of in *; simpl in *. exact IHo.
   - match goal with |- context [exec o ?x] => specialize (IHo x Hrf); destruct (exec o x) as [[s1 r1] t1] end.
     unfold raised_of, st_of in *; simpl in *. exact IHo.
-  - match goal with |- context [exec o ?x] => specialize (IHo x Hrf); destruct (exec o x) as [[s1 r1] t1] end.
+  - destruct (memo_get k (t_memo s)) eqn:Hit; [split; auto|].
+    match goal with |- context [exec o ?x] => specialize (IHo x Hrf); destruct (exec o x) as [[s1 r1] t1] end.
     unfold raised_of, st_of in *; simpl in *. destruct IHo as [-> M]. split; [reflexivity|].
-    intros k0. simpl. rewrite memo_get_set. destruct (N.eqb k0 k) eqn:E; [discriminate|].
-    intros H. apply M in H. rewrite memo_get_set, E in H. exact H.
+    intros k0. simpl. unfold memo_default in *. rewrite memo_get_set. destruct (N.eqb k0 k) eqn:E; [discriminate|].
+    intros H. specialize (M k0). rewrite memo_get_set, E in M. apply M. exact H.
 Qed.
